@@ -998,12 +998,20 @@ func genC12c(g *G, sc *Scenario, tier string) {
 		}
 	}
 	sc.Tasks = append(sc.Tasks, []Op{{K: "compact", DS: "dsA", N: g.PickInt([]int{1, 1, 2, 3})}})
+	heldHandle := 0
+	if g.P(0.2) {
+		// the dataset was renamed and given its name back; the writers resolved it before that (an upload keeps its
+		// handle for all batches of its body) and write through the handle they hold
+		sc.Ops = append(sc.Ops, Op{K: "renameRound", DS: "dsA", DS2: "dsTmp"})
+		heldHandle = 1
+		sc.Note = "writers hold a handle from before a rename"
+	}
 	nw := g.Range(1, 2)
 	for w := 0; w < nw; w++ {
 		var ops []Op
 		for i := g.Range(1, 3); i > 0; i-- {
 			ents := g.batch(c, m, "dsA")
-			ops = append(ops, Op{K: "batch", DS: "dsA", Ents: ents})
+			ops = append(ops, Op{K: "batch", DS: "dsA", Ents: ents, N: heldHandle})
 		}
 		sc.Tasks = append(sc.Tasks, ops)
 	}
